@@ -83,6 +83,22 @@ CHECKS = {
    note=("Trusted: the harness's token<->value tables (bit-exact inverse), TLC, the transcription of sort.Search in the spec. Exhaustive only for "
          "the small bound-token domain; longer specs are covered by the absence of length-dependent state."),
    design_ref="DESIGN.md section 6 C03"),
+ "C11": dict(
+   technique="TLA+ spec TestScope.tla checked by TLC; record/snapshot histories on real test scopes replayed through its actions by TLC (TestScopeTrace.tla)",
+   text=("TLC checks snapshot independence, last-update gauges and survival of closed sub-scopes on the sequential model for all short histories and shows the three "
+         "weakenings are caught. Seeded random histories (all four kinds, derived scopes, snapshots at arbitrary points, Close of sub-scopes) run on real test scopes; every "
+         "event is replayed through the model's action and every snapshot - including earlier ones re-read later and after the harness wrote into snapshot maps - is compared "
+         "with the model state by TLC."),
+   note="Trusted: the harness's abstraction of snapshot entries (name{tags}, bucket upper bounds as strings, value tokens), TLC. The concurrent-snapshot clause is not covered yet.",
+   design_ref="DESIGN.md section 6 C11"),
+ "C20": dict(
+   technique="TLA+ spec Buckets.tla (constructor recurrences; bucket cache with order/kind-blind identity, two threads) checked by TLC; real constructor results and histogram bounds validated by TLC; concurrent creations under the controlled scheduler judged against TallyObs.tla",
+   text=("TLC checks that every histogram uses its own bounds for colliding request sequences of two threads on the cache model and that dropping the equality re-check (or "
+         "making it kind-blind) is caught. The real constructors are evaluated on an exact-arithmetic grid and compared with the recurrences by TLC; all sequences of 3 (4) "
+         "creations over 8 colliding specifications and exhaustive interleavings of two concurrent creators are executed on real roots and the bounds each histogram "
+         "allocates are compared with the specification it was created with."),
+   note="Trusted: the collision-preserving concretisation tables (float bit patterns / nanoseconds), the cached recording reporter, TLC. Constructors only on exactly representable arguments.",
+   design_ref="DESIGN.md section 6 C20"),
 }
 
 NOT_YET = "check not built yet in this session (work in progress; see DESIGN.md)"
